@@ -26,11 +26,18 @@ def accs : Stmt → St → List Acc
  | .block _ body, σ => accs body σ
  | _, _ => []
 
-/-- executions with the accesses they perform (only runs that do not go bad) -/
-inductive ExecT : Stmt → St → List Acc → St → Exit → Prop
+/-- what an execution does that the analyses are about: a field access, or the acquisition of a mutex, each with the
+    mutexes held at that moment -/
+inductive TEv
+ | acc (a : Acc)
+ | acq (m : LockId) (held : Held)
+deriving DecidableEq, Repr
+
+/-- executions with the accesses and acquisitions they perform (only runs that do not go bad) -/
+inductive ExecT : Stmt → St → List TEv → St → Exit → Prop
  | skip σ : ExecT .skip σ [] σ .normal
- | acc f w σ : ExecT (.acc f w) σ [(f, w, σ.held)] σ .normal
- | lock m σ : m ∉ σ.held → ExecT (.lock m) σ [] { σ with held := m :: σ.held } .normal
+ | acc f w σ : ExecT (.acc f w) σ [.acc (f, w, σ.held)] σ .normal
+ | lock m σ : m ∉ σ.held → ExecT (.lock m) σ [.acq m σ.held] { σ with held := m :: σ.held } .normal
  | unlock m σ : m ∈ σ.held → ExecT (.unlock m) σ [] { σ with held := σ.held.erase m } .normal
  | deferU m σ : ExecT (.deferUnlock m) σ [] { σ with deferred := m :: σ.deferred } .normal
  | seqN a b σ σ' σ'' t1 t2 e : ExecT a σ t1 σ' .normal → ExecT b σ' t2 σ'' e → ExecT (.seq a b) σ (t1 ++ t2) σ'' e
@@ -46,7 +53,7 @@ inductive ExecT : Stmt → St → List Acc → St → Exit → Prop
  | loopOut l body σ σ' t e e' : ExecT body σ t σ' e → loopExit l e = some e' → ExecT (.loop l body) σ t σ' e'
  | block l body σ σ' t e : ExecT body σ t σ' e → ExecT (.block l body) σ t σ' (blockExit l e)
 
-theorem ExecT.toExec {s : Stmt} {σ σ' : St} {t : List Acc} {e : Exit} (h : ExecT s σ t σ' e) : Exec s σ (.ok σ' e) := by
+theorem ExecT.toExec {s : Stmt} {σ σ' : St} {t : List TEv} {e : Exit} (h : ExecT s σ t σ' e) : Exec s σ (.ok σ' e) := by
   induction h with
   | skip σ => exact .skip σ
   | acc f w σ => exact .acc f w σ
@@ -66,8 +73,8 @@ theorem ExecT.toExec {s : Stmt} {σ σ' : St} {t : List Acc} {e : Exit} (h : Exe
   | block l body σ σ' t e _ ih => exact .blockOk l body σ σ' e ih
 
 /-- every access of every execution of a body the checker accepts is listed by `accs`, with the mutexes actually held -/
-theorem accs_sound {s : Stmt} {σ σ' : St} {t : List Acc} {e : Exit} (h : ExecT s σ t σ' e) :
-    ∀ outs, check s σ = some outs → ∀ a ∈ t, a ∈ accs s σ := by
+theorem accs_sound {s : Stmt} {σ σ' : St} {t : List TEv} {e : Exit} (h : ExecT s σ t σ' e) :
+    ∀ outs, check s σ = some outs → ∀ a, TEv.acc a ∈ t → a ∈ accs s σ := by
   induction h with
   | skip σ => intro _ _ a ha; simp at ha
   | acc f w σ => intro _ _ a ha; simpa [accs] using ha
